@@ -11,7 +11,7 @@ def gen_ops(r, n):
         c = r.random()
         if c < 0.3 and live: ops.append(f"{r.choice('FFG')}:{r.randrange(NFN)}")
         elif c < 0.8: ops.append(("T:" if r.random() < 0.2 else "A:") + str(r.randrange(NFN)))
-        elif c < 0.84 and r.random() < 0.5: ops.append(f"X:{r.randrange(NFN)}")
+        elif c < 0.84 and r.random() < 0.5: ops.append(f"{r.choice('XXY')}:{r.randrange(NFN)}")
         elif c < 0.9 and live: ops.append("D"); live = False
         elif not live: ops.append("N"); live = True
         else: ops.append(f"A:{r.randrange(NFN)}")
@@ -27,15 +27,17 @@ def run(res, tier, seed, replay):
     vlib.proof_stage(res, "C14", thorough=(tier == "thorough"))
     ok, out = vlib.build_extract()
     if not ok: res.broke("extraction of the model failed", out); return
+    async_part(res, tier, seed, 200 if tier == "quick" else 8000, True)
+
+def async_part(res, tier, seed, n, long):
     exe = reallib.build(res)
     if not exe: return
     r = random.Random(seed + 14)
-    n = 200 if tier == "quick" else 8000
     cases = [(f"s{i}", gen_ops(r, r.randint(1, 30))) for i in range(n)]
     cases += [("k0", ["F:0", "A:0", "A:0", "A:4", "D", "A:0"]), ("k1", ["F:0", "F:0", "A:0", "D", "A:0", "N", "F:4", "A:4", "A:0"]), ("k2", [f"F:{i}" for i in range(NFN)] + [f"T:{i}" for i in range(NFN)]),
               ("k3", ["F:0", "A:0", "G:0", "A:0", "F:0", "A:0", "T:0", "D", "A:0"]), ("k4", ["G:1", "F:1", "G:1", "A:1", "F:3", "G:3", "F:3", "A:3"])]
     # long lifetimes: hundreds of fakes alive in ONE injector (every re-fake keeps its trampoline until the drop), awaits in between
-    for li, nrep in enumerate([180, 450] if tier == "quick" else [180, 450, 1200, 3000]):
+    for li, nrep in enumerate(([180, 450] if tier == "quick" else [180, 450, 1200, 3000]) if long else []):
         ops = []
         for j in range(nrep):
             a, b = r.randrange(NFN), r.randrange(NFN)
@@ -52,7 +54,7 @@ def run(res, tier, seed, replay):
             if len(t) >= 2: obs.setdefault(t[0], {})[t[1]] = t[2] if len(t) > 2 else ""
     # X ops (another thread's whole lifetime) are serialised by the process-wide guard after the current injector's drop (or run at once when
     # there is none) and restore what they did: the model runs the sequence without them
-    M = vlib.run_model([f"{cid} asyncrun {','.join(map(str, YIELDS))} {','.join(o for o in ops if not o.startswith('X:')) or '-'}" for cid, ops in cases])
+    M = vlib.run_model([f"{cid} asyncrun {','.join(map(str, YIELDS))} {','.join(o for o in ops if not o.startswith(('X:', 'Y:'))) or '-'}" for cid, ops in cases])
     distinct = set(); corr = []
     orig_after = ",".join(f"{i}:{'u' if i == 2 else 'o'}:{1 + YIELDS[i]}:1:0" for i in range(NFN))
     for cid, ops in cases:
@@ -67,7 +69,7 @@ def run(res, tier, seed, replay):
         for op, g in zip(ops, got):
             if op == "D": live_x = False
             elif op == "N": live_x = True
-            elif op.startswith("X:"):
+            elif op.startswith(("X:", "Y:")):
                 nx += 1
                 if live_x and g != "X:0":
                     res.violation(f"while this thread's injector was alive, another thread created its own injector and faked async fn {op[2:]} without waiting for it", case, g)
@@ -76,7 +78,7 @@ def run(res, tier, seed, replay):
         for op, g in zip(ops, got):
             if g.startswith("F!"):
                 res.violation(f"while faking {op} the library wrote and flushed code that is not a branch ({g[2:]} flushes): the function was taken back to its original code in between, so an await on another thread at that moment runs the original body", case, g)
-        keep = [k for k, op in enumerate(ops) if not op.startswith("X:")]
+        keep = [k for k, op in enumerate(ops) if not op.startswith(("X:", "Y:"))]
         got_all = got; got = [got[k] for k in keep if k < len(got)]; ops_m = [ops[k] for k in keep]
         # model-free monitor: the spec of the statement, straight on the observation
         faked = {}; live = True
